@@ -760,6 +760,15 @@ func (env *SpecEnv) call(x ECall) (SVal, error) {
 		return SVal{T: Term{eq(args[0].T.S, "null"), SBool}}, nil
 	case "dyntype":
 		return SVal{T: Term{sx("dyntype", args[0].T.S), SInt}}, nil
+	case "zero":
+		if s, ok := x.Args[0].(EStr); ok {
+			t, err := env.resolveType(s.V)
+			if err != nil {
+				return SVal{}, err
+			}
+			return SVal{T: u.zero(t), Typ: t}, nil
+		}
+		return SVal{}, fmt.Errorf("zero needs a type name string")
 	case "typeid":
 		// typeid("pkg.T") or typeid of Go type expression
 		if s, ok := x.Args[0].(EStr); ok {
